@@ -23,6 +23,11 @@ CHECKS = {
             "Random redirection lists (<=4 of 11 operator spellings) x external/builtin x 4 pipeline positions x target states are executed and compared with a reference model of open file descriptions.",
             "trusts the POSIX open-file-description model in lib/c04.py; nothing demanded of a failing command's own targets",
             "DESIGN.md 3 C04"),
+    "C08": ("fault_enumeration",
+            "runtime monitoring: every spawned helper reports its inherited descriptors; vp_snap snapshots /proc/<shell>/fd between commands; fault enumeration of RLIMIT_NOFILE 4..40 via the ulimit builtin",
+            "Every RLIMIT_NOFILE value 4..40 is injected before 6 pipeline shapes; random command sequences are run with a quiescent snapshot of the shell's table after every command and a descriptor report from every child.",
+            "trusts /proc/<pid>/fd and the helpers' fcntl scan; programs that never reach main are not observed in quick",
+            "DESIGN.md 3 C08"),
 }
 
 NOT_YET = "check not built yet (work in progress); runtime monitoring is applicable and planned, see DESIGN.md section 3"
